@@ -2241,3 +2241,12 @@ Lemma def_vote_req self l prio vm t c ct tr lt id :
              <| m_context := if tr then CAMPAIGN_TRANSFER else [] |> <| m_priority := prio |> in
   if (0 <? prio)%Z then m <| m_deprecated_priority := Z.to_N prio |> else m.
 Proof. unfold vote_req. destruct tr; destruct (0 <? prio)%Z; reflexivity. Qed.
+
+Lemma def_raises r m :
+  raises r m <->
+  (m_type m = MsgHup /\ r_state r <> Leader /\ r_promotable r = true /\
+   (r_pre_vote r = false \/ self_wins r)) \/
+  (m_type m = MsgTimeoutNow /\ r_state r = Follower /\ r_promotable r = true) \/
+  (m_type m = MsgRequestPreVoteResponse /\ r_state r = PreCandidate /\
+   prevote_tally r m = VoteWon).
+Proof. reflexivity. Qed.
